@@ -784,6 +784,39 @@ func init() {
 			return []ecs.Relation{ecs.RelID(d.ID[u.IP8], ecs.Entity{})}
 		})
 	}
+	// ---- filter objects guard their own state: a registered filter cannot be modified or registered again, an unregistered one
+	// cannot be unregistered (a modified mask under an unchanged cache entry would make cached and uncached results diverge, C05).
+	// The rejected call leaves the filter as it was: the cached-twin comparison goes on with the same object.
+	for _, fm := range []struct {
+		name string
+		reg  bool
+		run  func(d *Drv, f typed.TFilter)
+	}{
+		{"With", true, func(d *Drv, f typed.TFilter) { f.With(comps([]int{u.IP8})) }},
+		{"Without", true, func(d *Drv, f typed.TFilter) { f.Without(comps([]int{u.IP4})) }},
+		{"Exclusive", true, func(d *Drv, f typed.TFilter) { f.Exclusive() }},
+		{"Relations", true, func(d *Drv, f typed.TFilter) { f.Relations(nil) }},
+		{"Register", true, func(d *Drv, f typed.TFilter) { f.Register() }},
+		{"Unregister", false, func(d *Drv, f typed.TFilter) { f.Unregister() }},
+	} {
+		fm := fm
+		state := "registered"
+		if !fm.reg {
+			state = "unregistered"
+		}
+		addMisuse("filterstate", "Filter."+fm.name+"("+state+" filter)", func(d *Drv, op *Op, _, _ ecs.Entity) {
+			n := len(d.SF)
+			for k := 0; k < n; k++ {
+				s := (op.N + k) % n
+				if s < len(d.M.Filters) && d.M.Filters[s].Used && d.SF[s].inst != nil && d.M.Filters[s].Registered == fm.reg {
+					d.Stat.Misuse["filter arity "+fmt.Sprint(d.SF[s].inst.Arity())+" "+fm.name]++
+					fm.run(d, d.SF[s].inst)
+					return
+				}
+			}
+			panic(skipMisuse{})
+		})
+	}
 	// ---- structural operations on a locked world (h is an alive entity; the generator only picks these while a query is open)
 	lockedOps := map[string]func(d *Drv, op *Op, h, aux ecs.Entity){
 		"World.NewEntity":    func(d *Drv, op *Op, h, _ ecs.Entity) { d.W.NewEntity() },
